@@ -11,9 +11,10 @@ documented eqsat pipelines
                 from every SOUND arith PDL rule of the .mlir corpus, individually and pairwise
                 (apply-eqsat-pdl itself shells out to mlir-opt, which does not exist here)
 
-like xdsl-opt does: the module is verified after every pass.  A pass raising one of xDSL's diagnostics is a *reported
-failure* (counted; a violation only in the rule-free pipelines, whose inputs are all within the documented support);
-a pass raising a built-in Python exception, or leaving a module that does not verify, is a violation.  The extracted
+like xdsl-opt does: the module is verified after every pass.  Every case is within the documented support (pure
+single-result arith ops in one block, sound rules), so a pass that aborts -- with one of xDSL's diagnostics
+(`aborts-on-sound-rules` / `fails-on-valid-program`) or a built-in Python exception (`raises-internal`) -- or that
+leaves a module that does not verify is a violation: no program was yielded.  The extracted
 program must verify, define every value before its use, contain no eqsat op, and return what the source returns
 (mc.refsem) on every boundary input on which the source is defined; the rule-free pipelines must additionally give
 back the source up to op order.  A matcher shipped in the corpus next to its PDL source (rebuilding.mlir) is used as
@@ -25,7 +26,8 @@ on, observed as i1 results or through arith.select: congruence closure must not 
 cost file and every {0,1} cost assignment to constant/addi/muli/subi as a cost_file next to default=1: a zero-cost
 self-referential e-node must never be selected -- an extracted value that depends on itself is a violation, the
 program cannot be executed); pattern order of rule pairs; two-function modules (a rule creating a constant in one
-function while the same constant lives in the other: every function must verify and compute its own results).
+function while the same constant lives in the other: every function must verify and compute its own results);
+identity chains (2..3 nested x+0 / x*1 on one value feeding a further op: unions of e-classes of different sizes).
 
 Rule soundness is decided here, not assumed: lhs/rhs of every corpus rule are turned into two functions and compared
 with mc.refsem on a dense i32 grid and exhaustively at i4 (refinement: wherever the lhs is defined the rhs is defined
@@ -718,9 +720,16 @@ def run_pipeline(st: Stats, specs, pipe, src) -> str:
         try:
             fn()
         except Exception as e:  # noqa: BLE001
-            if _is_diagnostic(e):   # a diagnostic: the tool reports that it cannot do this
+            if _is_diagnostic(e):
+                # The tool reports that it cannot do this.  Every case of the space is within the documented support
+                # (pure single-result arith ops in one block, sound rules, each value in one e-class): "yields a
+                # program" fails when the pipeline aborts, with or without rules.
                 if kind != "rules":
                     _identity_failure(st, pname, sname, f"raises {type(e).__name__}: {str(e)[:120]}", wit)
+                else:
+                    st.violate(f"C28|{sname}|aborts-on-sound-rules|{type(e).__name__}@{_site(e)}",
+                               f"{pname}: {sname} aborts with {type(e).__name__}: {str(e)[:140]}",
+                               {**wit, "error": str(e)[:300]})
                 return f"reported-failure:{sname}:{type(e).__name__}"
             st.violate(f"C28|{sname}|raises-internal|{type(e).__name__}@{_site(e)}",
                        f"{sname} raises {type(e).__name__} ({str(e)[:120]}) in {pname}", {**wit, "error": str(e)[:300]})
@@ -1084,6 +1093,29 @@ def twin_programs(quick: bool):
 
 
 
+def chain_programs(quick: bool):
+    """f(a, b): a chain of 2..3 identity applications on one value (each level +0 or *1: x+0+0, (x*1)+0,
+    ((x+0)*1)+0, ...) feeding one further op with b (either operand order) [thorough: also with a, and the chain value
+    returned as a second result]"""
+    for L in (2, 3):
+        for kinds in itertools.product((0, 1), repeat=L):
+            cs = tuple(c for c in (0, 1) if c in kinds)
+            cidx = {c: 2 + i for i, c in enumerate(cs)}
+            base = 2 + len(cs)
+            ops = []
+            prev = 0
+            for lv, kd in enumerate(kinds):
+                ops.append((kd, prev, cidx[kd]))     # kd 0: addi prev, c0 ; kd 1: muli prev, c1
+                prev = base + lv
+            for last in range(3):
+                for other in ((1,) if quick else (1, 0)):
+                    for x, y in ((prev, other), (other, prev)):
+                        prog = tuple(ops) + ((last, x, y),)
+                        yield (2, cs, prog, (base + L,))
+                        if not quick:
+                            yield (2, cs, prog, (base + L, prev))
+
+
 def enumerate_programs(quick: bool) -> tuple[list, dict]:
     """-> list of cases (family, (spec, ...))"""
     progs = list(trivial_programs())
@@ -1110,7 +1142,8 @@ def enumerate_programs(quick: bool) -> tuple[list, dict]:
         small = [p for k in (1, 2) for p in programs(k, 2, consts, nb, False)]
         small += [p for p in programs(1, 3, (0, 1), 3, False) if len(p[1]) + len(p[2]) == 3 and p[1]]
     twins = list(twin_programs(quick))
-    cases = [("main", (p,)) for p in progs + twins]
+    chains = list(chain_programs(quick))
+    cases = [("main", (p,)) for p in progs + twins + chains]
     cases += [("costs", (p,)) for p in small]
     # two functions in one module: P = every 1-argument program with <= 2 ops, Q = those made of one constant and one
     # binary op (the constant a rule may want to create lives in the OTHER function); both orders
@@ -1123,7 +1156,8 @@ def enumerate_programs(quick: bool) -> tuple[list, dict]:
                 if pair not in seen:
                     seen.add(pair)
                     cases.append(("pairs", pair))
-    bounds["families"] = {"main": len(progs), "property-twins (in main)": len(twins), "costs": len(small),
+    bounds["families"] = {"main": len(progs), "property-twins (in main)": len(twins),
+                          "identity-chains (in main)": len(chains), "costs": len(small),
                           "pairs": len(seen)}
     bounds["cost_files"] = sorted(G.get("costs", {}))
     return cases, bounds
@@ -1168,8 +1202,8 @@ def run(ctx):
         "convert-pdl-interp-to-eqsat-pdl-interp (optimize_for_eqsat emits ematch ops no pass interprets: not used); "
         "a matcher shipped in the corpus with its PDL source as a comment is used as a second matcher for that rule set",
         "ApplyEqsatPDLInterpPass.apply only parses pdl_interp_file and calls apply_eqsat_pdl_interp, which is driven directly",
-        "like xdsl-opt, the module is verified after every pass; xDSL diagnostics raised by a pass are reported failures "
-        "(violations only without rules), built-in Python exceptions and non-verifying pass outputs are violations",
+        "like xdsl-opt, the module is verified after every pass; a pass that raises (diagnostic or built-in exception) "
+        "or leaves a non-verifying module is a violation: every case is within the documented support",
         "if no rule of a set matches the source syntactically the set is not run beyond the single-rule probes "
         "(iteration 1 finds nothing, the loop exits)",
         "cost files are always combined with default=1 (ops the file does not name cost 1); zero costs are legal values",
